@@ -3,6 +3,7 @@ mod c15;
 mod c16;
 mod c17;
 mod c21;
+mod c31;
 mod harness;
 
 
@@ -14,7 +15,7 @@ use std::io::Read;
 use std::process::{Command, Stdio};
 
 fn checks() -> Vec<Check> {
-    vec![c15::check(), c16::check(), c17::check(), c21::check()]
+    vec![c15::check(), c16::check(), c17::check(), c21::check(), c31::check()]
 }
 
 fn find_check(id: &str) -> Check {
